@@ -248,3 +248,17 @@ PROPS["C14"] = dict(
         scunit("plain_thread", children=2, steps=2, owner_co=False),
     ] + [dict(u, name="cq_" + u["name"]) for u in C16_UNITS if u["name"] in ("select2", "select2_co", "kernel_race", "panic_top")],
 )
+
+def pkunit(name, n=500, **params):
+    return dict(name=name, scenario="park", params=dict(workers=8, **params),
+                quick=dict(explore=dict(n=n), dfs=dict(max=n, pb=2)),
+                thorough=dict(explore=dict(n=10 * n), dfs=dict(max=10 * n, pb=3)))
+C02_UNITS = [
+    dict(name="park_spec", tlc=[("spec/l1/MCPark.tla", "spec/l1/MCPark.cfg")]),
+    pkunit("blocker2", parker_co=True, kind="blocker", rounds=["park", "tpark"], unparkers=2, unparks_each=1),
+    pkunit("blocker_co", parker_co=True, kind="blocker", rounds=["park", "park"], unparkers=2, unparks_each=1, unparker_co=True),
+    pkunit("handle3", parker_co=True, kind="handle", rounds=["park", "tpark", "park"], unparkers=2, unparks_each=2),
+    pkunit("cancel1", parker_co=True, kind="blocker", rounds=["park"], unparkers=1, unparks_each=1, canceller=True),
+    pkunit("thread2", parker_co=False, kind="blocker", rounds=["park", "tpark"], unparkers=2, unparks_each=1, n=200),
+]
+PROPS["C02"] = dict(assumptions=["run queues deliver every scheduled coroutine (C01, C03, C04); timer contract (C08)"], units=C02_UNITS)
